@@ -287,6 +287,12 @@ func (m Mut) ApplyElems(seq int, kind string, elems []string, base []Exchange) [
 		}
 	case "result-string":
 		obj["result"] = "0x1"
+	case "empty-result":
+		// a backend that has not got the block's receipts / traces / logs yet and answers with an empty list
+		if _, ok := obj["result"].([]any); !ok {
+			return out
+		}
+		obj["result"] = []any{}
 	default:
 		if isBlockElem && m.Item < 0 {
 			res, ok := obj["result"].(map[string]any)
@@ -442,6 +448,9 @@ func Enumerate(base []Exchange, start, limit uint64, hashOf func(uint64) string)
 			obj, ok := parseObj(el)
 			if !ok {
 				continue
+			}
+			if arr, isArr := obj["result"].([]any); isArr && len(arr) > 0 {
+				add("empty-result", k, -1, -1, 0)
 			}
 			isBlockElem := ex.Kind == ExBlocks || ex.Kind == ExHeaders || ex.Kind == ExHead || (ex.Kind == ExLogs && k == 0)
 			if isBlockElem {
